@@ -184,6 +184,8 @@ type ATStmt struct {
 	Classes []string
 	// ForceFail: the database is made to fail the business statement (injected error)
 	ForceFail bool
+	// RevCols: an INSERT / upsert lists its columns (and values) in the opposite order of the table's
+	RevCols bool
 	// Spell: how the statement writes the table name (0 as created, 1 UPPER, 2 `quoted`, 3 db.table, 4 `db`.`table`)
 	Spell int
 }
@@ -218,6 +220,7 @@ func spellStatements(c *ATCase) {
 	for li := range c.Locals {
 		for _, st := range c.Locals[li].Stmts {
 			k++
+			st.RevCols = (h+3*k)%3 == 0
 			if v := (h + 7*k) % 10; v >= 5 {
 				st.Spell = v - 5 + 1
 				if st.Spell > 4 {
@@ -387,6 +390,13 @@ func (s *ATStmt) Render(sc *ATSchema) (string, []interface{}, string) {
 			}
 			names = append(names, c.Name)
 		}
+		rev := s.RevCols && s.AutoForm == 0
+		if rev {
+			// the statement lists its columns in the opposite order of the table's (the key comes last)
+			for a, b := 0, len(names)-1; a < b; a, b = a+1, b-1 {
+				names[a], names[b] = names[b], names[a]
+			}
+		}
 		o.sb.WriteString("INSERT INTO " + s.tableText(sc) + " (" + strings.Join(names, ", ") + ") VALUES ")
 		fmt.Fprintf(&o.tok, "%c%d:%d:", s.Kind, len(s.Rows), len(sc.Cols))
 		for i, row := range s.Rows {
@@ -394,6 +404,37 @@ func (s *ATStmt) Render(sc *ATSchema) (string, []interface{}, string) {
 				o.sb.WriteString(", ")
 			}
 			o.sb.WriteString("(")
+			if rev {
+				// SQL text and arguments in the statement's order, the model token in the table's
+				argAt := make([]int, len(row))
+				for k := len(row) - 1; k >= 0; k-- {
+					if k < len(row)-1 {
+						o.sb.WriteString(", ")
+					}
+					switch e := row[k]; e.K {
+					case 'c':
+						o.sb.WriteString(sc.Cols[e.Col].Name)
+					case 'l':
+						o.sb.WriteString(e.Val.SQL())
+					default:
+						o.sb.WriteString("?")
+						argAt[k] = len(o.args)
+						o.args = append(o.args, e.Val)
+					}
+				}
+				for k, e := range row {
+					switch e.K {
+					case 'c':
+						fmt.Fprintf(&o.tok, "c%d.", e.Col)
+					case 'l':
+						o.tok.WriteString("l" + e.Val.Tok())
+					default:
+						fmt.Fprintf(&o.tok, "a%d.", argAt[k])
+					}
+				}
+				o.sb.WriteString(")")
+				continue
+			}
 			first := true
 			for k, e := range row {
 				if k == 0 && s.AutoForm != 0 {
@@ -519,6 +560,9 @@ func genSchema(r *Rng, table string, o ATGenOpts) *ATSchema {
 	if n >= 3 && (r.Chance(30) || o.CollideKeys) {
 		sc.PK = []int{0, 1} // composite key
 		sc.Cols[1].Nullable = false
+		if len(table)%2 == 1 {
+			sc.Cols[1].Name = "sub_id" // a key column whose name contains the other key column's name
+		}
 		if !o.StrPK {
 			sc.Cols[1].Typ = 'i'
 		}
